@@ -578,7 +578,9 @@ def check(ctx):
     dm = [m for m in own_methods(deser_nodes(model)) if classify_impl(m) != "abstract"]
     sm = [m for m in own_methods(ser_nodes(model)) if classify_impl(m) != "abstract"]
     strat = [c.methods["update_result"] for c in model.classes_in_module(SER_MOD) if "update_result" in c.methods and classify_impl(c.methods["update_result"]) != "abstract"]
-    mutation_rule(ctx, "C08.R6", dm, {"data"})
+    # constructors receive the values mapping - the caller's own datum on the SimpleObjectMethod path
+    constructs = [c.methods["construct"] for c in model.classes_in_module(DESER_MOD) if "construct" in c.methods and classify_impl(c.methods["construct"]) != "abstract"]
+    mutation_rule(ctx, "C08.R6", dm + constructs, {"data", "fields"})
     mutation_rule(ctx, "C08.R6", sm + strat, {"obj"})
 
     # ---------------- R7: check-only and building variants evaluate their children in the same order
